@@ -1366,9 +1366,19 @@ namespace xsimd
         real_batch s = select(m >= real_batch(big), real_batch(down), select(m < real_batch(T(1) / big) && m > real_batch(T(0)), real_batch(up), real_batch(T(1))));
         c *= s;
         d *= s;
+        // likewise the products c*a, d*b underflow for a very small dividend although the quotient is an ordinary
+        // number: scale such a dividend up by t and apply the final factor s / t in two steps f * g, chosen so
+        // that neither step leaves the range (up / up == 1)
+        real_batch n = max(abs(a), abs(b));
+        auto tiny = n < real_batch(T(1) / big) && n > real_batch(T(0));
+        auto s_up = s > real_batch(T(1));
+        a = select(tiny, a * real_batch(up), a);
+        b = select(tiny, b * real_batch(up), b);
+        real_batch f = select(tiny && s_up, real_batch(T(1)), s);
+        real_batch g = select(tiny && !s_up, real_batch(T(1) / up), real_batch(T(1)));
         real_batch e = c * c + d * d;
-        m_real = ((c * a + d * b) / e) * s;
-        m_imag = ((c * b - d * a) / e) * s;
+        m_real = (((c * a + d * b) / e) * f) * g;
+        m_imag = (((c * b - d * a) / e) * f) * g;
         return *this;
     }
 
